@@ -383,3 +383,37 @@ func (v *VerifSGConn) ClosedWith() int {
 	}
 	return 0
 }
+
+// ---- whole simulated connection: make one endpoint exceed the peer's stream limit ----
+
+// VerifSGMisleadLimit makes a running connection believe its peer allows n streams of the given
+// type (as if a MAX_STREAMS frame had arrived), so that it will violate the peer's real limit.
+func VerifSGMisleadLimit(c *Conn, uni bool, n int64) {
+	t := protocol.StreamTypeBidi
+	if uni {
+		t = protocol.StreamTypeUni
+	}
+	c.streamsMap.HandleMaxStreamsFrame(&wire.MaxStreamsFrame{Type: t, MaxStreamNum: protocol.StreamNum(n)})
+}
+
+// VerifSGNewTrace returns an in-memory qlog trace (for Config.Tracer).
+func VerifSGNewTrace() qlogwriter.Trace { return &verifSGTrace{} }
+
+// VerifSGCloseClass classifies the error a connection was closed with:
+// (remote, class) with class 1 STREAM_STATE_ERROR, 2 STREAM_LIMIT_ERROR, 7 other, 0 none.
+func VerifSGCloseClass(err error) (remote bool, class int, text string) {
+	if err == nil {
+		return false, 0, ""
+	}
+	var te *qerr.TransportError
+	if errors.As(err, &te) {
+		switch te.ErrorCode {
+		case qerr.StreamStateError:
+			return te.Remote, 1, te.Error()
+		case qerr.StreamLimitError:
+			return te.Remote, 2, te.Error()
+		}
+		return te.Remote, 7, te.Error()
+	}
+	return false, 7, err.Error()
+}
